@@ -13,7 +13,7 @@ def run(ctx: Ctx) -> list[Ob]:
             "validates-on-construction",
             "every region graph handed out by the construction algorithms is validated only here",
         )
-    ] + r8.run_guards(ctx, r8.GUARDS_REGION_GRAPH) + r9.r9(ctx, ["cirkit.templates.region_graph.graph.RegionGraph.build_circuit"]) + (r9.r9_sweep(ctx) if ctx.tier == "thorough" else []) + r14.count_table_covers_bins(ctx) + r7n.structured(ctx) + r7n.identity(ctx) + r7n.canonical(ctx) + r14.groupby_sorted(ctx, ('cirkit.templates.region_graph',)) + r14.sum_width_from_input(ctx) + r14.numpy_scalars_into_scopes(ctx) + r14.mst_zero_edges(ctx)
+    ] + r8.run_guards(ctx, r8.GUARDS_REGION_GRAPH) + r9.r9(ctx, ["cirkit.templates.region_graph.graph.RegionGraph.build_circuit"]) + (r9.r9_sweep(ctx) if ctx.tier == "thorough" else []) + r14.count_table_covers_bins(ctx) + r9.root_units(ctx) + r9.builders_never_refuse(ctx) + r7n.structured(ctx) + r7n.identity(ctx) + r7n.canonical(ctx) + r14.groupby_sorted(ctx, ('cirkit.templates.region_graph',)) + r14.sum_width_from_input(ctx) + r14.numpy_scalars_into_scopes(ctx) + r14.mst_zero_edges(ctx)
 
 
 SPEC = PropSpec(
@@ -30,8 +30,9 @@ SPEC = PropSpec(
         "graph for that argument combination. Thorough tier: the same rule over every isinstance-dispatched loop in cirkit/. R7n: RegionGraph.is_structured_decomposable compares decompositions per *scope* (keyed by .scope), not per region node, and no mapping of the class goes from a scope to a node or node index (several region nodes may share a scope: dump / load would re-attach partitions to another parent)."
         " R14a: every itertools.groupby in the region-graph package runs over a sequence sorted by the same key (groupby merges adjacent elements only: partitions of one scope separated by a different order are never compared). R14e: in every region-graph function with an np.ndarray parameter, the array elements that become members of a Scope / RegionNode / PartitionNode pass through int(..) (flow-sensitive taint) -- a numpy integer in a scope survives construction and compilation and makes dump() raise. R14j: the dense weight matrix handed to scipy's minimum_spanning_tree is the negation of weights shifted by a positive constant (zero entries of a dense matrix are missing edges; mutual information can be exactly 0). R14d: in build_circuit the input width of every sum_factory(..) call derives from .num_output_units of the layer it is wired to (or is the unit count the input layer underneath is built with) -- 'explicit sum/product factories' includes product factories that do not preserve the width."
         ' R14r: the joint-count table of the Chow-Liu mutual information is as wide as the category indices it is scattered with -- a path-sensitive walk of ChowLiuTree (forking at every if, nothing executed) tracks the upper bound of the (re-binned) data entries, (K - 1) // (K // B), and the expression passed as the table side; `bound < side` is proved by x // d <= x when the side is K itself, and otherwise refuted by a bounded search (1 <= B <= K <= 48) for a counter-model of the two closed-form integer expressions (K = 10, B = 4: largest bin 4, side 4).'
+        ' R9u: every store node_to_layer[<region>] = L of build_circuit and its nested builders is either control-dependent on the region having consumers (not a root) or L is built with num_classes output units (directly, or through `num_sum_units if <region outputs> else num_classes`): a root that is a leaf region must not come out with num_input_units units. R9n: the builders of the named abstractions (cp, cp-t, tucker) contain no refusal: the numbers of units below one partition legitimately differ on unbalanced region graphs (input regions vs inner regions).'
     ),
     not_decided="validity of the generated graphs as a function of run-time sizes / seeds; sufficiency of _check_structure; JSON round trip.",
     run=run,
-    floors={"R14r": 2, "R14e": 1, "R14d": 3, "R7n": 3, "R9": 1, "R8": 6, "R6": 1},
+    floors={"R9u": 6, "R9n": 3, "R14r": 2, "R14e": 1, "R14d": 3, "R7n": 3, "R9": 1, "R8": 6, "R6": 1},
 )
